@@ -19,7 +19,7 @@ HERE = os.path.dirname(os.path.abspath(__file__))
 WANTS_PLAYBACK_VALUES = True   # the native replay is driven by the verifier's counterexample state
 CPU_RESULTS = {}   # instance -> "OK" | "MISMATCH ..." from the native CPU run of the last prepare()
 
-TMPS = [0, 1, 4, 6, 7, 11, 12]           # r12 (SIB base class), r13, rsi (byte-REX), rdx, r8, stack, stack
+TMPS = [0, 1, 4, 5, 6, 7, 11, 12]        # r12 (SIB base class), r13, rsi / rdi (byte-REX), rdx, r8, stack, stack
 MEMS = [0, 1, -1, 15, 16, -16, -17]      # disp 0 / disp8 / disp32 on both sides for 8-byte cells
 IMMS = {
     "u8": [0, 1, 2, 127, 128, 255],
@@ -124,9 +124,44 @@ def _candidates(w, rnd, per_pattern):
     return out
 
 
+def _byte_hazard():
+    """u8 instances of every Copy/Add/Sub arm with a temporary, with the temporaries 4 and 5 (rsi, rdi):
+    their low bytes sil / dil are only addressable with a REX prefix -- without it the same
+    encoding names dh / bh.  Deterministic (no seed): the hazard is a fixed property of x86-64."""
+    out = []
+    for op, dk, ak, bk, cons in PATTERNS:
+        if op == "Mul" or "T" not in (dk, ak, bk):
+            continue
+        for first, second, live_all in ((4, 5, True), (5, 4, False)):
+            ts = [first, second]
+            used = []
+
+            def val(k):
+                if k == "M":
+                    return ("M", 1 if not used else -1)
+                if k == "I":
+                    return ("I", 255 if live_all else 2)
+                if k == "T":
+                    t = ts[len([u for u in used if u[0] == "T"]) % 2]
+                    return ("T", t)
+                return None
+            d = val(dk)
+            used.append(d)
+            a = val(ak) if not (cons == "d==a") else d
+            used.append(a)
+            b = val(bk)
+            opmask = 0
+            for x in (d, a, b):
+                if x is not None and x[0] == "T":
+                    opmask |= 1 << x[1]
+            live = 0xffff if live_all else (opmask & ~(1 << d[1]) if d[0] == "T" else opmask)
+            out.append(("u8", (op, d, a, b), live))
+    return out
+
+
 def _instances(tier, seed):
     rnd = random.Random(seed)
-    inst = list(MUST)
+    inst = list(MUST) + _byte_hazard()
     if tier == "quick":
         inst += _candidates("u64", rnd, 1)
         inst += _candidates("u8", rnd, 1)
